@@ -18,7 +18,7 @@ RULE = (
     "synthetic constant, linear-in-pressure and bubble-point-kinked families with/without vaporised oil; uniform "
     "and jittered pressure grids of 4..60 rows; oil-saturation column rising or falling inside [0, 1-Sw]), an "
     "admissible Brooks-Corey set with water at or below its residual (relative_permeabilities_twophase), "
-    "reference densities 1e-4..1e2, porosity, an initial pressure above the second node and a frac-face pressure "
+    "reference densities 1e-4..1e2, a unit system for the table (viscosity in cP, Pa s or 1e3 / 1e-6 multiples; pressure in psi, Pa, bar or MPa), porosity, an initial pressure above the second node and a frac-face pressure "
     "below it. Non-trivial = a table with >= 4 rows whose mobility is positive on at least 3 rows. Distinct = hash "
     "of the case record."
 )
